@@ -44,20 +44,43 @@ theorem validateRankParams_ok {gp : GPType} {n nl : Nat} {rank : RankV} :
 
 theorem validateParams_ok {rank : RankV} {gp : GPType} {n nl : Nat} {lm : Option Nat} :
     validateParams rank gp n nl lm = .ok () ↔
-      (∀ m, lm = some m → nl = m) ∧
+      (∀ m, lm = some m → nl = m ∨ (gp = .fixed ∧ m = n ∧ n < nl)) ∧
       ((gp.isFullFamily → nl = 0 ∨ n ≤ nl) ∧ (gp.isSparseFamily → 0 < nl ∧ nl < n) ∧ (gp = .fixed → nl ≠ 0)) ∧
       (rank.isNegative = false ∧ (gp.isNystroem ↔ rankIndicatesFull gp n rank nl = false)) := by
-  rw [← validateLandmarkParams_ok, ← validateGpType_ok, ← validateRankParams_ok]
+  rw [← validateGpType_ok, ← validateRankParams_ok]
   unfold validateParams
-  cases h1 : validateLandmarkParams nl lm with
-  | error e => simp [bind, Except.bind]
-  | ok u =>
+  by_cases hc : gp = .fixed ∧ lm = some n ∧ n < nl
+  · rw [if_pos hc]
+    have hA : ∀ m, lm = some m → nl = m ∨ (gp = .fixed ∧ m = n ∧ n < nl) := by
+      intro m hm
+      rw [hc.2.1] at hm
+      exact Or.inr ⟨hc.1, (Option.some.inj hm).symm, hc.2.2⟩
     cases h2 : validateGpType gp n nl with
-    | error e => simp [bind, Except.bind]
+    | error e => simp [bind, Except.bind, pure, Except.pure]
     | ok u2 =>
       cases h3 : validateRankParams gp n rank nl with
+      | error e => simp [bind, Except.bind, pure, Except.pure]
+      | ok u3 => simpa [bind, Except.bind, pure, Except.pure] using hA
+  · rw [if_neg hc]
+    have hE : (∀ m, lm = some m → nl = m ∨ (gp = .fixed ∧ m = n ∧ n < nl)) ↔
+        validateLandmarkParams nl lm = .ok () := by
+      rw [validateLandmarkParams_ok]
+      constructor
+      · intro h m hm
+        rcases h m hm with h | ⟨h1, h2, h3⟩
+        · exact h
+        · exact absurd ⟨h1, by rw [hm, h2], h3⟩ hc
+      · intro h m hm; exact Or.inl (h m hm)
+    rw [hE]
+    cases h1 : validateLandmarkParams nl lm with
+    | error e => simp [bind, Except.bind]
+    | ok u =>
+      cases h2 : validateGpType gp n nl with
       | error e => simp [bind, Except.bind]
-      | ok u3 => simp [bind, Except.bind]
+      | ok u2 =>
+        cases h3 : validateRankParams gp n rank nl with
+        | error e => simp [bind, Except.bind]
+        | ok u3 => simp [bind, Except.bind]
 
 /-! ### inversion of `prepare` -/
 
@@ -255,8 +278,10 @@ theorem inducing_points {c : Config} {r : Resolved} (hp : prepare c = .ok r) {lm
   have hnf : r.gp.isSparseFamily → r.gp ≠ .fixed := by
     intro h hf; rw [hf] at h; exact h
   rcases landmarksStep_ok hl with ⟨m', hu, hm'⟩ | ⟨hu, hcl⟩
-  · have := hlm m' hu
-    refine ⟨by rw [hm', hu]; rfl, fun _ => by rw [hm', this], hpos⟩
+  · refine ⟨by rw [hm', hu]; rfl, fun hs => ?_, hpos⟩
+    rcases hlm m' hu with this | ⟨hfx', _, _⟩
+    · rw [hm', this]
+    · exact absurd hfx' (hnf hs)
   · rw [hu]
     simp only [Option.getD_none]
     rcases computeLandmarks_ok hcl with ⟨h0, _⟩ | ⟨_, h2, hfix, hn'⟩ | ⟨_, h2, hnfix, _⟩ | ⟨_, h2, hn'⟩
@@ -360,14 +385,18 @@ theorem resolveFunction_ne_internal (c : Config) : resolveFunction c ≠ .intern
             · rw [if_neg h2n]
               cases hl : landmarksStep c.landmarks r.gp c.n r.nl with
               | error e => simp
-              | ok lm => exact functionPredictor_ne_internal _ _ _ _
+              | ok lm =>
+                simp only []
+                split_ifs
+                · simp
+                · exact functionPredictor_ne_internal _ _ _ _
 
 theorem resolveFunction_ok {c : Config} {gp : GPType} {rows cols : Nat} {cls : PredFamily}
     (h : resolveFunction c = .ok gp rows cols cls) :
     ∃ r lm, prepare { c with rank := .flt 1 } = .ok r ∧ 2 ≤ c.n ∧
       landmarksStep c.landmarks r.gp c.n r.nl = .ok lm ∧
       functionPredictor r.gp c.n lm c.sigma = .ok gp rows cols cls ∧
-      ¬ r.gp.isNystroem := by
+      ¬ r.gp.isNystroem ∧ c.sigma.wrongLength c.n = false := by
   unfold resolveFunction at h
   cases h1 : initNLandmarks c.nLandmarks with
   | error e => rw [h1] at h; simp at h
@@ -396,7 +425,10 @@ theorem resolveFunction_ok {c : Config} {gp : GPType} {rows cols : Nat} {cls : P
               | ok lm =>
                 rw [hl] at h
                 simp only [] at h
-                refine ⟨r, lm, rfl, by omega, hl, h, ?_⟩
+                by_cases hw : c.sigma.wrongLength c.n = true
+                · rw [if_pos hw] at h; simp at h
+                rw [if_neg hw] at h
+                refine ⟨r, lm, rfl, by omega, hl, h, ?_, by simpa using hw⟩
                 -- rank 1.0 indicates full rank, so a validated type is not a Nyström type
                 obtain ⟨_, rkU, _, _, hro, _, _, hrk, _, hv⟩ := prepare_ok hp
                 rw [validateParams_ok] at hv
